@@ -47,7 +47,7 @@ def plan(tier):
         for k in KINDS:
             for m in MODES:
                 shards.append(("api", ci, k, m, tier))
-    for ci in range(len(CONFIGS)):
+    for ci in range(len(INSTR_CONFIGS)):
         for thumb in (0, 1):
             shards.append(("instr", ci, thumb, tier))
     return {
@@ -76,9 +76,15 @@ def valid_state(cfgd, mode, ns):
     return True
 
 
+# the instruction-level entries additionally run under a VMSA configuration (MMU off): alignment faults then take the
+# VMSA abort path (alignment_fault_v -> data_abort) instead of the PMSA one
+# (without LPAE: with it every VMSA fault report calls the unimplemented cache-maintenance hook)
+INSTR_CONFIGS = CONFIGS + [("sec-vmsa", {"have_security_ext": True, "arch_version": 7, "memory_system_architecture": "VMSA"})]
+
+
 class Ctx:
     def __init__(self, ci):
-        name, cfg = CONFIGS[ci]
+        name, cfg = INSTR_CONFIGS[ci]
         self.name = name
         self.env = sweep.Env("mpu-off", cfg)
         self.cpu = self.env.cpu
